@@ -9,29 +9,138 @@ props = [json.loads(l) for l in open(os.path.join(V, "properties.jsonl"))]
 TB = "rustc's MIR construction and callee resolution (nightly 1.97); the reviewed std/chrono semantics tables in sq/; "
 
 # id -> dict(category, text, note, technique, thorough(bool), design_ref)
+E2NOTE = ("E2 = abstract interpretation of the crate's MIR (intervals x per-bit provenance x affine forms over frame bits / "
+          "XOR-sets, joins at merges, no path enumeration, no solver) over contexts in which the selector fields are enumerated "
+          "and all payload bits are symbolic. ")
+
 CLAIMS = {
-    "C13": dict(
-        category="other",
+    "C01": dict(category="other", design_ref="DESIGN.md 5/C01",
+        text="Proof by abstract interpretation that every reached panic/overflow obligation (MIR Assert terminators: bounds, "
+        "add/sub/mul/neg overflow, shift amount, division; expect/unwrap, Index, chrono constructors) is definitely safe in "
+        "every context of a partition covering all 32 DF x both lengths x every digit count 0..64 through the line gate, all "
+        "type codes/subtypes, altitude/velocity field classes, Comm-B classes, both update paths, -R, any -u/-d, the counters, "
+        "the sweep (inductive counter invariant), sort keys and row rendering; plus structural termination (acyclic call graph, "
+        "loops over finite sources) and the EOF/exit-0 path. Not decided: EPIPE, OOM on huge lines, -D/-l file-system failures.",
+        note=TB + "std/chrono model table (sq/absint/models.py); dev profile MIR (a superset of the release profile's panic sites).",
+        technique="abstract interpretation over MIR (obligation discharge per context) + CFG/call-graph rules"),
+    "C02": dict(category="other", design_ref="DESIGN.md 5/C02",
+        text="Proof: get_message is interpreted abstractly on a line = (symbolic hex digits, arbitrary decoration) for every digit "
+        "count 0..64 and every DF x length; the result is None exactly outside {14,28,26,40}/on DF-length disagreement and otherwise "
+        "the exact last 14/28 digits; the line reaches the gate only through decoration-only str functions; effects are dominated "
+        "by the three gates (edge-cut reachability).",
+        note=TB + "model of str::chars/char::to_digit on the abstract line; decoration-only function table.",
+        technique="abstract interpretation of the line gate (exhaustive over digit counts and DF) + CFG dominance"),
+    "C03": dict(category="other", design_ref="DESIGN.md 5/C03",
+        text="Proof: the 24 address bits computed by get_icao come out as frame bits 9-32 (DF11/17/18) or as XOR-sets that equal, bit "
+        "by bit, AP xor the CRC-24 obtained by independent polynomial division (GF(2)-linear identity = all payloads, DF0/4/5/16/20/21); "
+        "zero excluded; structural single-writer proof of the table (one entry/and_modify/or_insert chain + retain), key = get_icao of "
+        "the current line, closure captures/effects, Plane.icao provenance.",
+        note=TB + "reference CRC division sq/ref/crc.py; Rust borrow rules.",
+        technique="XOR-linear abstract interpretation of the CRC loops vs reference matrix; call-site inventory + def-use provenance"),
+    "C04": dict(category="other", design_ref="DESIGN.md 5/C04",
+        text="Proof: the value the gate compares with zero is, bit by bit, the CRC-24 syndrome (data XOR-sets from polynomial division, "
+        "xor PI; masked to the upper 17 bits for DF11) - a GF(2)-linear identity over all 2^112 frames; the accept decision depends on "
+        "every squitter bit (DF11: not on the 7 IC bits) and on no payload bit for other formats; effects dominated by the gate.",
+        note=TB + "reference CRC division; guarded join (if-conversion) of the XOR domain.",
+        technique="XOR-linear abstract interpretation + dependency sets + CFG dominance"),
+    "C05": dict(category="other", design_ref="DESIGN.md 5/C05",
+        text="Proof for Q=1 (exact affine form 25N-1000 refined to [0,50175], None below), zero code, provenance (data+control deps "
+        "within AC13/AC12), writers and path agreement. Gillham (Q=0): the decoded value per C1C2C4 class is an exact affine form over "
+        "GF(2)-linear atoms compared with Annex 10 - today a KNOWN FINDING (wrong decode pinned by two unit tests), keyed by a "
+        "fingerprint of the current form so that any other change is still reported. M=1 unconstrained.",
+        note=TB + "Annex 10 altitude code tables in sq/rules/c05.py.",
+        technique="abstract interpretation with affine forms over frame bits / XOR atoms"),
+    "C06": dict(category="proof", design_ref="DESIGN.md 5/C06",
+        text="Proof: in every DF5/DF21 context the value stored to squawk is Some(v) with v's exact affine form equal to "
+        "4000A4+2000A2+1000A1+400B4+200B2+100B1+40C4+20C2+10C1+4D4+2D2+D1 over ID13 bits 20-32 (= all 8192 codes x every other bit), "
+        "on both update paths, every CA/-R, and on creation for DF5; no other context writes squawk.",
+        note=TB + "ID13 bit order in sq/rules/c06.py.",
+        technique="abstract interpretation with exact affine forms over frame bits"),
+    "C07": dict(category="other", design_ref="DESIGN.md 5/C07",
+        text="Proof: stored callsign = 8 optional characters, the i-th from bits 41+6i..46+6i in order (TC1-4 both paths/creation, "
+        "BDS2,0 iff selector and gate); character mapping evaluated abstractly for all 64 codes and all positions; category = (TC, "
+        "subtype field); wake table over all 32x8 pairs.",
+        note=TB + "iterator/collect models.",
+        technique="abstract interpretation (symbolic character sequences) + exhaustive finite-function evaluation"),
+    "C08": dict(category="other", design_ref="DESIGN.md 5/C08",
+        text="NECESSARY CONDITIONS ONLY. Decided: position stores happen only under the four non-zero slot tests, |t0-t1|<10 s, decoder "
+        "returned a position, zone equality, lat/lon range tests (path-condition atoms); slot index = bit 54, slot fields exact, slot "
+        "time = Utc::now of this update; NL table = closed form; observer/haversine wiring. NOT decided: the numeric CPR decode "
+        "(20 m, zones, antimeridian) and the distance value - floating point, no sound static argument in reach.",
+        note=TB + "chrono model; NL closed form.",
+        technique="abstract interpretation with symbolic path-condition terms; MIR constant-table audit; def-use trees"),
+    "C09": dict(category="other", design_ref="DESIGN.md 5/C09",
+        text="Proof for vertical rate (exact affine +/-64(field-1), 0 -> none), zero components -> no speed/track, both paths and "
+        "creation agree and overwrite; extraction/term structure of sqrt(x^2+y^2), atan2(EW,NS), x4 supersonic as necessary "
+        "conditions. Not decided: float rounding, the open end of [0,360).",
+        note=TB + "TC19 field layout in sq/rules/c09.py.",
+        technique="abstract interpretation (affine forms, symbolic float terms, structural post-state comparison)"),
+    "C10": dict(category="other", design_ref="DESIGN.md 5/C10",
+        text="Proof of gating (every CA x -R), advertisement flags, single-bit validation (status 0 / reserved 1), 1,7-over-4,0 "
+        "precedence, exact affine decodes of the linear fields; necessary conditions for accepted ranges (interval hull includes the "
+        "plausible range per sign context) and the |GS-TAS|<200 guard. Truncating scalings: provenance and range only.",
+        note=TB + "Doc 9871 register layouts in sq/absint/contexts.py / sq/rules/c10.py.",
+        technique="abstract interpretation over Comm-B contexts (store inventories, affine forms, path-condition terms)"),
+    "C11": dict(category="other", design_ref="DESIGN.md 5/C11",
+        text="Proof of the per-step clauses to which histories reduce: carrier matrix (changed fields of every context within the "
+        "format's allowed set; surface squitter blanks altitude), no stored value depends on the row's previous contents except the "
+        "listed derivations/gates, and re-applying a frame changes nothing (update interpreted twice).",
+        note=TB + "carrier table in sq/rules/c11.py; row isolation from C03.",
+        technique="abstract interpretation with symbolic pre-state row (identity of unchanged values, dependency labels)"),
+    "C12": dict(category="other", design_ref="DESIGN.md 5/C12",
+        text="Structural proof: must-assign dataflow of timestamp := Utc::now() over every row-update entry and the constructor; "
+        "retain predicate == num_seconds(now - row.timestamp) < delete_after; counter automaton (threshold/reset/increment read from "
+        "MIR) sweeps at least every 12 calls; sweep follows every update; new rows are built from a constant blank row + the frame; "
+        "no other row container/static. Real elapsed time not decided.",
+        note=TB + "chrono / HashMap::retain / Entry API semantics.",
+        technique="forward must-dataflow + expression-tree matching + counter automaton exploration on resolved MIR"),
+    "C13": dict(category="other", design_ref="DESIGN.md 5/C13",
         text="Structural proof on the resolved MIR of the per-line loop: every non-unwind loop exit is traced to its "
         "controlling call and must be exhaustion of a reviewed line-source pipeline (no content-dependent truncation) "
         "or a pure std I/O error; every mutation of loop-carried state is dominated by the three accept gates. "
-        "Decides 'never end early' and 'no state leaks from a rejected line' for all inputs; does not decide memory "
-        "use on huge lines.",
+        "Does not decide memory use on huge lines.",
         note=TB + "source/adapter table (lines/read_line: Err on invalid UTF-8; split/read_until: I/O only).",
-        technique="CFG loop-exit classification + edge-cut dominance over resolved MIR (custom rustc_private driver)",
-        design_ref="DESIGN.md 5/C13",
-    ),
-    "C17": dict(
-        category="proof",
+        technique="CFG loop-exit classification + edge-cut dominance over resolved MIR"),
+    "C14": dict(category="other", design_ref="DESIGN.md 5/C14",
+        text="Proof, exhaustive over the 32 flag sets and all filled/blank paths, without formatting a string: per flag set the "
+        "row writer's CFG is pruned, write! templates (expanded AST) give each site's minimum width, min and max path totals coincide "
+        "and equal the header total; ordered row fields equal ordered header names through the column->field table; alignment/blank "
+        "rules per placeholder; refresh layout order.",
+        note=TB + "std::fmt width/alignment semantics; column->field table; an unpadded char/digit counts 1 column.",
+        technique="format-template column algebra over AST format_args facts joined with the MIR CFG"),
+    "C15": dict(category="other", design_ref="DESIGN.md 5/C15",
+        text="Structural proof: the row vector is only permuted between collect and the printing fold; address sort dominates the "
+        "-o sorts; each letter's sort key/comparator closure, read as an expression tree, is an order-embedding (or reversal) of the "
+        "field the property names; letters applied in order with stable sorts.",
+        note=TB + "slice sort/reverse semantics.",
+        technique="def-use expression trees of sort-key closures + call inventory on the row vector"),
+    "C16": dict(category="other", design_ref="DESIGN.md 5/C16",
+        text="Structural proof: the -f decision dominates every table/counter effect, its predicate is `frame DF not in list` over the "
+        "whole list (recognised forms), skip polarity right; counter step absent->1, n->n+1 from the Entry-API form; counted key is "
+        "the frame's DF, under -c only, ordered map, printed once per entry.",
+        note=TB + "Iterator::all/any, slice::contains, BTreeMap semantics.",
+        technique="CFG dominance + closure expression trees + API-form recognition on resolved MIR"),
+    "C17": dict(category="proof", design_ref="DESIGN.md 5/C17",
         text="Exhaustive: the MIR of the address->country function is evaluated over an interval partition of "
         "[0,2^24) (each branch on a monotone function of the address splits intervals exactly), giving the exact "
         "interval->code map, compared on every overlap segment with an independent transcription of Annex 10 "
         "(189 blocks); plus no dead arm, and Plane.reg is only ever stored from that function applied to the value "
         "stored to Plane.icao.",
         note=TB + "the reference block list sq/ref/annex10.py.",
-        technique="interval-partition abstract evaluation of the MIR decision tree vs reference table; def-use provenance",
-        design_ref="DESIGN.md 5/C17",
-    ),
+        technique="interval-partition abstract evaluation of the MIR decision tree vs reference table; def-use provenance"),
+    "C18": dict(category="other", design_ref="DESIGN.md 5/C18",
+        text="Structural proof: the TCP function has no reachable Return and reaches no exit/abort; a failed connect reaches the next "
+        "attempt only through sleep(3..8 s); the table passed to the line reader is the function's parameter in every iteration; "
+        "Planes::new only in main; main joins the one spawned thread. OS socket behaviour / real pause not decided.",
+        note=TB + "std thread/net semantics.",
+        technique="CFG reachability/avoidance + def-use provenance + call-site inventory (lib and bin)"),
+    "C19": dict(category="other", design_ref="DESIGN.md 5/C19",
+        text="Proof: presentation options are read nowhere in code reachable from the table-updating calls, are not in their arguments "
+        "(field-sensitive for the counters struct) nor in the branches controlling them (one whitelisted I/O `?`); observer coordinates "
+        "(labels propagated by E2, data and control) reach only the distance store; for every DF4/5/11/17 context the two update "
+        "paths store structurally identical values for the ten listed parameters.",
+        note=TB + "option classification in sq/rules/c19.py.",
+        technique="Args field-read inventory + expression trees + label propagation and sibling-path comparison by abstract interpretation"),
 }
 
 NA_DEFAULT = "check under construction in this round - will be claimed once its rule runs"
@@ -54,7 +163,7 @@ def main():
             "replay_cmd_template": "./check %s --replay {path}" % pid,
             "engine": "sqfacts+sq",
             "level_claimed": {"category": c["category"], "text": c["text"], "design_ref": c["design_ref"]},
-            "level_note": c["note"],
+            "level_note": c["note"] + (" " + E2NOTE if "abstract interpretation" in c["technique"] else ""),
             "technique": c["technique"],
         }
         if c.get("thorough", True):
